@@ -130,6 +130,7 @@ type State struct {
 	ghostFrame *Frame // when set: contract expressions of ghost/assert statements are evaluated over this (root) frame's names
 	held   map[string]string // lock key -> "w" / "r"
 	nonnil map[string]bool
+	callArgs []Val // actual arguments of the call a "before call" anchor is being evaluated for
 	panicking bool
 	ghostLocals map[string]Val
 	inQuant int
